@@ -205,6 +205,7 @@ class Case:
     # ------------------------------------------------------------ one step
     def step(self, no, force=None):
         r, w = self.r, self.w
+        K.settle()     # no loader thread of an earlier (failed) command is still writing into a cache directory
         ui = r.randrange(len(w.users))
         u = w.users[ui]
         cdir = self.cdir(ui)
@@ -356,6 +357,7 @@ class Case:
     # ------------------------------------------------------------ sweep: every state of one entry × read-only commands
     def sweep(self):
         r, w = self.r, self.w
+        K.settle()
         listed = self.listed()
         if not listed:
             return
